@@ -203,9 +203,10 @@ def run_cfg(ctx, p, cfg):
             if wf:
                 a = wf[0].arg(1)
                 r.require(any(x[0] == "field" and x[2] == "fill" for x in walk(a)), "%s:pads-with-fill" % adt.rsplit("::", 1)[-1], fn=g, detail="the written character is self.fill")
-                nx = [c for c in g.calls("core::iter::traits::iterator::Iterator::next") if g.dominates(c.block, wf[0].block)]
-                okn = bool(nx) and any(x[0] == "agg" and x[1].endswith("::Range") and deep_strip(dict(x[3])["start"]) == ("const", "int", 0) and deep_strip(dict(x[3])["end"])[0] == "field" for x in walk(nx[0].arg(0)))
-                r.require(okn, "%s:pads-to_fill-times" % adt.rsplit("::", 1)[-1], fn=g, detail="for _ in 0..self.to_fill")
+                trips = common.loop_trip_count(g, wf[0].block)
+                te = deep_strip(trips) if trips is not None else None
+                okn = te is not None and te[0] == "field" and te[2] == "to_fill" and deep_strip(te[1]) == ("param", 1)
+                r.require(okn, "%s:pads-to_fill-times" % adt.rsplit("::", 1)[-1], fn=g, detail="the padding loop runs self.to_fill times (trip count %s)" % (show(te, 4) if te else None))
             if adt == RIGHT:
                 rep = [c for c in g.calls() if c.callee in ("std::io::Write::write_all", "encode::Write::set_style")]
                 r.require(len(rep) == 2 and wf and all(not g.can_reach(c.block, wf[0].block) and g.can_reach(wf[0].block, c.block) for c in rep), "RightAlignWriter:pad-before-content", fn=g,
